@@ -396,3 +396,39 @@ def op7(ctx):
             yield Ob(key_of("C09-Op7", b.path, "ro-guard"), not bad,
                      "%d arena write(s); %s" % (len(effs), "all behind a read-only test" if not bad else "NOT guarded: %s at %s (a read-only mapping faults here)" % (bad[0].get("atomic") or bad[0].get("effect") or "store", ctx.loc(bad[0]))),
                      ctx.loc(bad[0]) if bad else b.loc())
+
+
+OPEN_TABLE = {
+    # open function (with or without `_with_path_builder`) -> (inner constructor, mapping function): read-only opens go through map_in, which builds
+    # Memory{read_only: true} (Op5) and never calls set_len (Op6); writable / copy-on-write opens go through map_mut_in
+    "map": ("map_in", "memory::mmap"),
+    "map_copy_read_only": ("map_in", "memory::mmap_copy_read_only"),
+    "map_mut": ("map_mut_in", "memory::mmap_mut"),
+    "map_copy": ("map_mut_in", "memory::mmap_copy"),
+}
+
+
+@rule("C09-Op8", "C09", 16, "open-function dispatch: every Memory::map* wrapper calls the constructor of its own kind with its own mapping function (read-only opens: map_in with "
+      "mmap / mmap_copy_read_only; writable and copy-on-write opens: map_mut_in with mmap_mut / mmap_copy), and every Options::map* calls the Memory function of the same name",
+      configs=MEMCFG)
+def op8(ctx):
+    for b in ctx.facts.find(r"^memory::Memory::<R, PR, H>::map(_mut|_copy|_copy_read_only)?(_with_path_builder)?$"):
+        kind = b.name.replace("_with_path_builder", "")
+        want = OPEN_TABLE.get(kind)
+        ev, res = ctx.eval(b, no_inline=(r"::map_in$", r"::map_mut_in$"))
+        calls = [e for e in res.log if e["kind"] == "call" and re.search(r"::(map_in|map_mut_in)$", e["callee"])]
+        ok = want is not None and len(calls) == 1
+        got = None
+        if calls:
+            e = calls[0]
+            f = e["args"][2] if len(e["args"]) > 2 else None
+            got = (e["callee"].split("::")[-1], f[1] if tag(f) == "fn" else show(f))
+            ok = ok and got == want
+        yield Ob(key_of("C09-Op8", b.path, "constructor"), ok, "%s -> %s (expected %s)" % (b.name, got, want), b.loc())
+    for b in ctx.facts.find(r"open_options::<impl options::Options>::map(_mut|_copy|_copy_read_only)?(_with_path_builder)?$"):
+        inner = [(t.get("resolved") or t.get("callee") or "") for _, t in b.calls()]
+        mem = [c for c in inner if re.search(r"Memory::<.*>::map\w*$", c) or re.search(r"allocator::Sealed>?::map\w*$|::map(_mut|_copy|_copy_read_only)(_with_path_builder)?$", c)]
+        names = sorted(set(c.split("::")[-1] for c in mem if c.split("::")[-1].startswith("map")) - {"map"} if b.name != "map" else set(c.split("::")[-1] for c in mem))
+        ok = b.name in [c.split("::")[-1] for c in mem]
+        others = [n for n in set(c.split("::")[-1] for c in mem) if n != b.name and n != "map" and n.startswith("map")]
+        yield Ob(key_of("C09-Op8", b.path, "same-name"), ok and not others, "Options::%s calls %s" % (b.name, sorted(set(c.split("::")[-1] for c in mem))), b.loc())
